@@ -136,6 +136,7 @@ def add_proc(table, path, p, kindname=None, with_perm=False):
             add_var(table, pp, a, "arg", with_perm=False)
         else:
             _put(table, f"{pp}/arg:{a.name.lower()}", {"kind": "arg", "is_procedure": True, "proctype": getattr(a, "proctype", "").lower(),
+                                                        "attribs": sorted(x.replace(" ", "").lower() for x in getattr(a, "attribs", []) or []),
                                                         "args": [_name_of(x) for x in getattr(a, "args", [])]})
     rv = getattr(p, "retvar", None)
     if ptype == "function" and rv is not None:
